@@ -222,7 +222,9 @@ def c2_queues(fb, rep):
         ix = _strip(l.get('i'))
         lenf = (ap(ix.get('e')) or '').split('.')[-1] if isinstance(ix, dict) and ix.get('k') == 'incdec' else None
         g = G.guards_of(sp, set(sp.blocks), b)
-        ok = lenf == arr + 'Len' and any(('%s < ' % lenf) in x and 'maxIncr' in x and not x.startswith('!') for x in g)
+        mx = fb.const('NNEvaluator::maxIncr')
+        full = lambda v: (lambda t: ('v', v) if t.get('k') == 'mem' and (ap(t) or '').split('.')[-1] == lenf else None)
+        ok = lenf == arr + 'Len' and mx is not None and G.excluded_under(sp, b, full(mx)) and G.excluded_under(sp, b, full(mx + 1)) and not G.excluded_under(sp, b, full(mx - 1))
         rep.ob(clause, 'K12 bounded write', 'NNEvaluator::setPiece: append to %s is guarded by %sLen < maxIncr' % (arr, arr), ok, R.site(sp, e), 'guards %s' % g, sp.sname)
     rep.floor(clause, 'queue appends in NNEvaluator::setPiece', n, 2)
     # overflow path forces a full refresh
@@ -251,7 +253,27 @@ def c2_queues(fb, rep):
                ps.where, 'maxStackSize %s, MAX_SEARCH_DEPTH %s' % (ms, msd), ps.sname)
         pp = fb.find1('NNEvaluator::popState')
         if pp is not None:
-            g_ok = any(e.get('k') == 'incdec' and e.get('op') == '--' and any('stackTop > 0' in x for x in G.guards_of(pp, set(pp.blocks), b)) for b, i, e in pp.events())
+            # with the level at 0, some guard of every decrement is false (the conditions are evaluated with stackTop = 0,
+            # so `> 0`, `!= 0`, `>= 1` and an early return under `== 0` are all recognised)
+            def at_bottom(t):
+                t = _strip(t)
+                if not isinstance(t, dict):
+                    return None
+                if 'cv' in t:
+                    return t['cv']
+                if t.get('k') == 'mem' and (ap(t) or '').endswith('.stackTop'):
+                    return 0
+                if t.get('k') == 'un' and t.get('op') == '!':
+                    v = at_bottom(t.get('e'))
+                    return None if v is None else (not v)
+                if t.get('k') == 'bin':
+                    a, b_ = at_bottom(t.get('l')), at_bottom(t.get('r'))
+                    if a is None or b_ is None:
+                        return None
+                    return {'>': a > b_, '>=': a >= b_, '<': a < b_, '<=': a <= b_, '==': a == b_, '!=': a != b_, '-': a - b_, '+': a + b_}.get(t.get('op'))
+                return None
+            decs = [(b, e) for b, i, e in pp.events() if e.get('k') == 'incdec' and e.get('op') == '--' and (ap(e.get('e')) or '').endswith('.stackTop')]
+            g_ok = bool(decs) and all(any(at_bottom(c) is not None and bool(at_bottom(c)) != side for c, side in G.guard_trees(pp, set(pp.blocks), b)) for b, e in decs)
             rep.ob(clause, 'K12 bounded write', 'popState never moves below the bottom of the stack (underflow forces a full refresh)', g_ok, pp.where, '', pp.sname)
 
 
